@@ -9,7 +9,7 @@ from engine.symx import all_of, any_of, implies, neg
 from engine.vtime import PinnedClock, real_timedelta
 from harness.common import SEC, T0, Y2000, Y2050, Recorder, World, mem_places, mk_actor, place_names, run_async, try_consume, us_of
 
-HUNDRED_Y = 100 * 36525 * 86400 * 10**5
+HUNDRED_Y = 36525 * 86400 * 10**6   # 100 julian years in µs
 
 
 def h13_chain(S, attempts=3):
